@@ -463,7 +463,7 @@ pub fn def() -> PropertyDef {
             "scale-and-round compared only when frac(t x/Q) is at least 2^-40 away from 1/2, mod-t decryption when |x/Q - 1/2| > 2^-30 (stated noise bound)",
         ],
         subs: vec![
-            Sub::prop("rns_routines", 80_000, 2_000_000, 0.3, rns_case, rns_oracle),
+            Sub::prop("rns_routines", 400_000, 2_000_000, 0.3, rns_case, rns_oracle),
             Sub::enumerate("small_bases_exhaustive", small_bases, small_oracle),
         ],
     }
